@@ -121,7 +121,8 @@ def z3bool(v):
     if isinstance(v, SSet):
         if v.card is not None:
             return v.card > 0
-        raise Unsupported('truthiness of a symbolic set without cardinality')
+        j = z3.Int('j!ne')
+        return z3.Exists([j], z3.Select(v.pred, j))
     if isinstance(v, (Obj, Opaque)):
         return z3.BoolVal(True)
     return z3.BoolVal(bool(v))
